@@ -508,6 +508,72 @@ theorem Refs.del_spec (f : Nat → Nat) : ∀ (r : Refs) (t id : Nat) (r' : Refs
             · exact Or.inr ((j2 x).2 ⟨h2, hne⟩)
 
 
+theorem swapRemoveS_subset : ∀ (l : List Nat) (id : Nat) (l' : List Nat), swapRemoveS l id = some l' → ∀ x, x ∈ l' → x ∈ l := by
+  intro l
+  induction l with
+  | nil => intro id l' h; simp [swapRemoveS] at h
+  | cons y ys ih =>
+    intro id l' h x hx
+    unfold swapRemoveS at h
+    by_cases hy : y = id
+    · rw [if_pos hy] at h
+      cases hl : ys.getLast? with
+      | none => simp only [hl, Option.some.injEq] at h; subst h; simp at hx
+      | some last =>
+        obtain ⟨zs, hzs⟩ := List.getLast?_eq_some_iff.1 hl
+        simp only [hl, Option.some.injEq] at h
+        subst h
+        rw [hzs, List.dropLast_concat] at hx
+        rw [hzs]
+        rcases List.mem_cons.1 hx with h1 | h1
+        · rw [h1]; simp
+        · exact List.mem_cons_of_mem _ (List.mem_append_left _ h1)
+    · rw [if_neg hy] at h
+      cases hr : swapRemoveS ys id with
+      | none => simp [hr] at h
+      | some r =>
+        simp only [hr, Option.some.injEq] at h
+        subst h
+        rcases List.mem_cons.1 hx with h1 | h1
+        · rw [h1]; exact List.mem_cons_self
+        · exact List.mem_cons_of_mem _ (ih id r hr x h1)
+
+/-- deletion only removes ids (no duplicate-freeness needed) -/
+theorem Refs.del_subset : ∀ {r : Refs} {t id : Nat} {r' : Refs}, Refs.del r t id = some r' → ∀ x, x ∈ Refs.ids r' → x ∈ Refs.ids r := by
+  intro r
+  induction r with
+  | nil => intro t id r' h; simp [Refs.del] at h
+  | cons p rest ih =>
+    intro t id r' h x hx
+    obtain ⟨t', l⟩ := p
+    unfold Refs.del at h
+    by_cases h1 : t = t'
+    · rw [if_pos h1, swapRemove_eq] at h
+      cases hs : swapRemoveS l id with
+      | none => simp [hs] at h
+      | some l' =>
+        simp only [hs] at h
+        have hsub := swapRemoveS_subset l id l' hs
+        rw [Refs.ids_cons]
+        split at h
+        · simp only [Option.some.injEq] at h; subst h
+          exact List.mem_append_right _ hx
+        · simp only [Option.some.injEq] at h; subst h
+          rw [Refs.ids_cons] at hx
+          rcases List.mem_append.1 hx with h2 | h2
+          · exact List.mem_append_left _ (hsub x h2)
+          · exact List.mem_append_right _ h2
+    · rw [if_neg h1] at h
+      cases hr : Refs.del rest t id with
+      | none => simp [hr] at h
+      | some r2 =>
+        simp only [hr, Option.some.injEq] at h
+        subst h
+        rw [Refs.ids_cons] at hx ⊢
+        rcases List.mem_append.1 hx with h2 | h2
+        · exact List.mem_append_left _ h2
+        · exact List.mem_append_right _ (ih hr x h2)
+
 /-! ### what the streamer still owes to its open (upcoming or active) streams -/
 
 def termS (ss : List Stream) (id : Nat) (i : Nat) : Nat :=
@@ -1185,7 +1251,7 @@ theorem move_to_active (s : State) (hs : SStruct s) (t id : Nat) (u a : Refs)
     simp only [List.map_append, List.sum_append]
     omega
 
-theorem activateDue_spec (e : Nat) : ∀ (l : List Stream) (s s' : State), SStruct s → activateDue e l s = .ok s' →
+theorem activateDue_spec : ∀ (l : List Stream) (s s' : State), SStruct s → activateDue l s = .ok s' →
     SStruct s' ∧ s'.streams = s.streams ∧ s'.bank = s.bank ∧ ∀ i, owedL s' i = owedL s i := by
   intro l
   induction l with
@@ -1240,11 +1306,11 @@ theorem startStreams_spec : ∀ (l : List Stream) (s s' : State), SStruct s → 
 theorem streamerBeforeEpochStart_sstep (s : State) (e : Nat) (s' : State) (hs : SStruct s)
     (h : streamerBeforeEpochStart s e = .ok s') : SStep s s' := by
   unfold streamerBeforeEpochStart at h
-  cases ha : activateDue e (upcomingStreams s) s with
+  cases ha : activateDue (upcomingStreams s) s with
   | error x => simp [ha] at h
   | ok s1 =>
     simp only [ha] at h
-    obtain ⟨a1, a2, a3, a4⟩ := activateDue_spec e _ _ _ hs ha
+    obtain ⟨a1, a2, a3, a4⟩ := activateDue_spec _ _ _ hs ha
     obtain ⟨gi1, gi2⟩ := activeStreamsFor_good s1 a1 e
     obtain ⟨b1, b2, b3, b4⟩ := startStreams_spec _ _ _ a1 gi1 (fun st hst => (gi2 st hst).1) h
     refine ⟨b1, by rw [a2] at b2; exact b2, ?_⟩
@@ -1254,13 +1320,15 @@ theorem streamerBeforeEpochStart_sstep (s : State) (e : Nat) (s' : State) (hs : 
 theorem streamerAfterEpochEnd_sstep (s : State) (e : Nat) (s' : State) (hg : GInv s) (hs : SStruct s)
     (h : streamerAfterEpochEnd s e = .ok s') : SStep s s' := by
   unfold streamerAfterEpochEnd at h
-  cases hd : strDistribute s [e] (activeStreamsFor s e) maxU64 true with
-  | error x => simp [hd] at h
-  | ok s1 =>
-    simp only [hd, Except.ok.injEq] at h
-    subst h
-    obtain ⟨a, b, c⟩ := strDistribute_streams _ _ _ _ _ _ hg hs (activeStreamsFor_good s hs e) hd
-    exact SStep.trans ⟨a, b, c⟩ (SStep.of_frame a rfl rfl rfl (fun _ => Nat.le_refl _))
+  split at h
+  · simp only [Except.ok.injEq] at h; subst h; exact SStep.refl hs
+  · cases hd : strDistribute s [e] (activeStreamsFor s e) maxU64 true with
+    | error x => simp [hd] at h
+    | ok s1 =>
+      simp only [hd, Except.ok.injEq] at h
+      subst h
+      obtain ⟨a, b, c⟩ := strDistribute_streams _ _ _ _ _ _ hg hs (activeStreamsFor_good s hs e) hd
+      exact SStep.trans ⟨a, b, c⟩ (SStep.of_frame a rfl rfl rfl (fun _ => Nat.le_refl _))
 
 theorem checkFinished_frame : ∀ (l : List Gauge) (s : State),
     (checkFinished l s).streams = s.streams ∧ (checkFinished l s).active = s.active ∧
